@@ -7,6 +7,6 @@ AllFalse == [n \in Node |-> FALSE]
 NoWrap == [n \in Node |-> "none"]
 NoFail == [n \in Node |-> "none"]
 Empty == [n \in Node |-> {}]
-Fam == {[single |-> g, selfOpt |-> AllFalse, slice |-> Empty, sliceOpt |-> AllFalse, lazy |-> lz, wrap |-> NoWrap, fail |-> NoFail, procs |-> ps, mode |-> [n \in Node |-> "normal"], rorder |-> <<>>] :
+Fam == {[single |-> g, selfOpt |-> AllFalse, slice |-> Empty, sliceOpt |-> AllFalse, lazy |-> lz, wrap |-> NoWrap, fail |-> NoFail, procs |-> ps, mode |-> [n \in Node |-> "normal"], rorder |-> <<>>, ilook |-> NoLook] :
           g \in [Node -> SUBSET Node], lz \in SUBSET Node, ps \in UNION {[1..k -> BOOLEAN] : k \in 0..2}}
 =============================================================================
